@@ -233,6 +233,68 @@ CLAIMS = {
 
 NA_DEFAULT = ("contracts for the functions this property depends on are not yet under the generator (see DESIGN.md section 11, build order); "
               "not claimed until its core obligations are generated and discharged")
+# Round 5: what later rounds added to, or corrected in, the notes above (appended to level_note).
+UPDATES = {
+    "C01": "Round 5: the binary WriteDecimal's one-byte form is proved to be positive zero with exponent zero only (a negative zero keeps its sign octet, "
+           "the declared length is exponent plus coefficient); the text writer spells int64/uint64/big.Int as the decimal text of the same integer "
+           "(strconv/fmt \"%d\" share one uninterpreted text function with big.Int.String); computeOffset parses hour and minute from the right characters.",
+    "C02": "Round 5: readString appends only legal raw characters (no raw line break, control character, quote or backslash) and "
+           "isProhibitedControlChar is the grammar's table (HT, VT, FF allowed); textReader.onSymbol (keywords are values only when unquoted) and "
+           "onTimestamp are proved; skipBlobHelper skips a blob as a lob (no comments).",
+    "C03": "Round 5: ReadAnnotations is proved, no longer assumed: the annotation IDs are read inside the wrapper only, each bounded by what is left of "
+           "annot_length, and the length handed to the re-validation is computed without wrap-around (this found and repaired a crash, DESIGN.md 0.3); "
+           "only readLocalSymbolTable remains a thin assumed contract on this path.",
+    "C04": "Round 5: annot_length is fed from the sum of varUintLen of the IDs, the IDs follow as VarUInts; every binary value method closes the wrapper "
+           "it opened (exactly one beginValue, one write, one endValue on success).",
+    "C05": "Round 5: sst.FindByID is bounds-safe against the symbols actually held (a table padded by Adjust has IDs without text, not a panic).",
+    "C06": "Round 5 correction: the check no longer covers the binary path only. No-panic obligations also hold for the text tokenizer's character level, "
+           "readString, ParseDecimal, ParseTimestamp and computeOffset, the textReader's onSymbol/onTimestamp, the scalar decoders, findField, emptyValue, "
+           "the symbol-table reader (readImport, readSymbols) and cmd/ion-go's copy loop and event writer; v.Index(i) in decodeSliceTo is reached only "
+           "with 0 <= i < v.Len(). Not covered: number/blob scanning, the struct/map/slice-growth paths of Unmarshal (reflect memory is a versioned ghost).",
+    "C07": "Round 5: text side: a short string with a raw line break or prohibited control character is rejected before anything is appended to its "
+           "value; an annotation wrapper whose annot_length exceeds the wrapper is a syntax error.",
+    "C08": "Round 5: text side: textReader.StepOut finishes the current value before skipping; skipping a blob and reading it treat `//` the same way.",
+    "C10": "Round 5: basicCatalog is under contract: add files a table under its exact name and version whatever else is present and keeps as latest "
+           "the largest version added so far in any order; FindExact/FindLatest return exactly those entries (fmt.Sprintf over strings and integers is an "
+           "uninterpreted function of its operands).",
+    "C11": "Round 5: basicCatalog.add/FindExact/FindLatest as in C10; binaryWriter.beginValue returns as soon as an annotation cannot be resolved "
+           "(ghost counter of failed calls: no later annotation runs with a failure pending).",
+    "C12": "Round 5: ghost failed-call counters: textWriter.beginValue/begin/end/writeFieldName/writeAnnotations/writeIndent, textWriter.Finish and "
+           "binaryWriter.Finish return an error whenever one of their write calls failed, and make at most one failing call.",
+    "C13": "Round 5: ParseDecimal hands NewDecimal the written exponent minus the fraction digits computed without wrap-around (found and repaired a wrap, "
+           "DESIGN.md 0.3); decodeInt keeps int/int64 values; the text writer's integer spelling (see C01). strconv.ParseInt with a constant bit size is a "
+           "trusted ranged function.",
+    "C14": "Round 5: ParseDecimal's exponent arithmetic is now decided (see C13); Decimal.trunc and round are proved panic-free instead of assumed.",
+    "C15": "Round 5: computeOffset is proved to read the hour from the two characters after the sign and the minute from everything after the colon "
+           "(it was an assumed pure function). Timestamp.String stays outside the subset (time.Format).",
+    "C16": "Round 5: findField returns the field with the exact name wherever it stands and a case-insensitive match only when there is none; "
+           "emptyValue (omitempty) drops exactly the zero value of the kind, a pointer or interface only when nil.",
+    "C17": "Round 5: decodeSliceTo addresses an element only inside the target (v.Index(i) with 0 <= i < v.Len() in the state of the call; the element "
+           "counter is assumed not to wrap, listed in the evidence); reflect observers of mutable state are now functions of a ghost version that every "
+           "setter moves on (SetLen and Set keep what they determine), so a fact read before a setter is not used after it. Slice growth is not decided.",
+    "C19": "Round 5: see C12 (failed writes are returned); bitstream.read treats only io.EOF as the end of input.",
+    "C20": "Round 5: eventwriter.write is proved (was assumed): every event carries the pending field name exactly when one was set, the pending "
+           "annotations, the current depth and the caller's type and text; EndStruct clears the struct flag of the level it leaves and of no other.",
+}
+
+# statements of earlier rounds that are no longer true
+CORRECTIONS = [
+    ("Trusted (assumed, listed in evidence): ReadAnnotations and readLocalSymbolTable are thin assumed contracts for their callers (decimals, "
+     "timestamps and the annotation wrapper's length re-validation are proved); ",
+     "Trusted (assumed, listed in evidence): readLocalSymbolTable is a thin assumed contract for its caller; "),
+    ("Binary reader and accessors only: the text reader, Decoder/Unmarshal and the symbol-table reader are not under contract yet, so this "
+     "check decides the property for binary input up to the same trusted thin contracts as C03. Termination is not proved.",
+     "Termination is not proved."),
+    ("Binary input only; the text reader's error paths are not under contract. ", "Mostly binary input; of the text reader the state machine's "
+     "rejections, escapes and short strings are under contract. "),
+    ("Binary reader only. Navigation programs", "Binary reader, and the text reader's StepOut and skipping helpers. Navigation programs"),
+    ("Not decided: ParseDecimal and the String/ParseDecimal round trip (strconv and fmt are outside the generator's subset), the digits after the "
+     "exponent marker, trunc/round.", "Not decided: the String/ParseDecimal round trip as a whole (digit parsing is big.Int.SetString, an "
+     "uninterpreted function), the digits after the exponent marker."),
+    ("reflect observers are trusted pure functions, setters are not modelled;", "reflect is a trusted model (see below);"),
+    ("the event writer's event contents (built through Marshal), ", "the encoding of an event once handed to the Encoder (Marshal), "),
+]
+
 NOT_APPLICABLE = {}
 
 ALL = ["C%02d" % i for i in range(1, 21)]
@@ -241,12 +303,16 @@ ALL = ["C%02d" % i for i in range(1, 21)]
 def main():
     # every commit of /repo that touches a hook file (oldest first)
     src = subprocess.run(["git", "-C", "/repo", "log", "--reverse", "--format=%H", "--", "ion/zz_verif_contracts.go", "ion/zz_verif_spec.go",
-                          "cmd/ion-go/zz_verif_contracts.go"], capture_output=True, text=True).stdout.split()
+                          "cmd/ion-go/zz_verif_contracts.go", "cmd/ion-go/zz_verif_spec.go"], capture_output=True, text=True).stdout.split()
     checks = []
     for pid in ALL:
         if pid not in CLAIMS:
             continue
         text, note, ref = CLAIMS[pid]
+        for a, b in CORRECTIONS:
+            note = note.replace(a, b)
+        if pid in UPDATES:
+            note = note + " " + UPDATES[pid]
         checks.append({
             "property_id": pid,
             "quick_cmd": "./check.sh %s quick" % pid,
@@ -270,7 +336,7 @@ def main():
         "hooks": {
             "guard": "verif",
             "enable": "go build tag `verif` (ionvc loads /repo with -tags=verif; the hook files are comment/spec only: "
-                      "ion/zz_verif_contracts.go, ion/zz_verif_spec.go)",
+                      "ion/zz_verif_contracts.go, ion/zz_verif_spec.go, cmd/ion-go/zz_verif_contracts.go, cmd/ion-go/zz_verif_spec.go)",
             "baseline_off_cmd": "cd /repo && GOFLAGS=-mod=mod GOPROXY=off GOSUMDB=off go test -mod=mod -json -vet=off -count=1 -timeout 25m ./...",
             "source_commits": src,
             "add_only": True,
